@@ -57,6 +57,12 @@ def run(ctx):
     if len(fb) == 0 or len(wr) == 0:
         generic.absent(ctx, "update-candidate record", top, "frombytes(record, address) and write_hex_file(storage_output_file)",
                        "the storage hex file is not produced")
+    if len(fb) > 1 and len(wr) == 1 and all(x.args[0] == wr[0].args[0] for x in fb):
+        from sa.index import Abort
+        R.rule("C16-D1c record placement", 1, "record alone at update_candidate_info_address, written to storage_output_file")
+        R.fail("C16-D1c record placement", "nothing else is put into the storage file", mod=top.module, node=fb[1].node, function=fq,
+               expected="only the update-candidate record", found=f"{len(fb)} frombytes into the storage hex object: {repr(fb[1])[:200]}")
+        raise Abort()
     if len(fb) != 1 or len(wr) != 1:
         raise AnalysisError(f"{fq}: storage hex effects not recognised ({len(fb)} frombytes, {len(wr)} write_hex_file)")
     fbt, wrt = fb[0], wr[0]
